@@ -1,4 +1,159 @@
 import TensorModel.Run
-/-! C20 — property theorems. -/
+import TensorModel.Proofs.Views
+import TensorModel.Proofs.Builds
+/-!
+  C20 — alternative engines and build configurations are observationally equivalent.
+  Property theorems only (helper lemmas: `Proofs/Builds.lean`, `Proofs/Views.lean`).
+
+  * build `noasm`: `divmod_amd64.s` (its instruction list is regenerated from the source on every
+    run, `Generated/DivmodAsm.lean`) computes exactly what `mathutils_go.go` computes, for every
+    pair of 64-bit operands, and faults exactly where Go panics;
+  * engines: `Float64Engine` / `Float32Engine` `Add` and `FMA` (model `Ext/Engines.lean`) coincide
+    with the default engine (model `Eng.lean`) on every operand pair the default engine accepts on
+    its contiguous path, and defer to it on the iterator path — and the recorded exception F37
+    (no shape / order check) is exhibited by a kernel-checked witness;
+  * build `inplacetranspose`: not modelled separately — the single model is compared with all three
+    builds by the correspondence run (see DESIGN.md §4 C20).
+-/
+set_option linter.unusedSimpArgs false
 namespace TM.C20
+open TM TM.Asm TM.Generated
+
+/-! ## `divmod`: assembly = pure Go -/
+
+/-- every instruction of the regenerated list is understood by the machine model -/
+theorem divmod_asm_no_unknown : divmodAsm.all (fun i => match i with | .unknown _ => false | _ => true) = true := by
+  decide
+
+/-- `b ≠ 0`: the assembly returns with `q = a / b`, `r = a % b` (Go semantics: truncated, `MinInt / -1 = MinInt`,
+    `MinInt % -1 = 0`) and the argument slots untouched, from any entry state. -/
+theorem divmod_asm_spec (regs : Reg → BitVec 64) (q0 r0 : BitVec 64) (zf dx : Bool) (a b : BitVec 64) (hb : b ≠ 0#64) :
+    (runDivmod regs q0 r0 zf dx a b).frame = some (a.sdiv b, a.srem b, a, b) := by
+  by_cases h1 : b = BitVec.allOnes 64
+  · subst h1; exact divmod_asm_neg_one regs q0 r0 zf dx a
+  · exact divmod_asm_general regs q0 r0 zf dx a b hb h1
+
+/-- `b = 0`: the assembly faults (`IDIVQ` by zero → the runtime's divide panic), as `a / 0` does in Go. -/
+theorem divmod_asm_zero_faults (regs : Reg → BitVec 64) (q0 r0 : BitVec 64) (zf dx : Bool) (a : BitVec 64) :
+    (match runDivmod regs q0 r0 zf dx a 0#64 with | .fault => True | _ => False) := by
+  obtain ⟨o, ho, h⟩ := divmod_asm_zero regs q0 r0 zf dx a
+  rw [ho]; exact h
+
+/-- The two builds agree: for all operands, the default build's `divmod` (assembly) and the `noasm`
+    build's `divmod` (Go) return the same pair, or both panic. -/
+theorem divmod_builds_agree (regs : Reg → BitVec 64) (q0 r0 : BitVec 64) (zf dx : Bool) (a b : BitVec 64) :
+    (runDivmod regs q0 r0 zf dx a b).frame.map (fun f => (f.1, f.2.1)) = goDivmod a b := by
+  by_cases hb : b = 0#64
+  · subst hb
+    have := divmod_asm_zero_faults regs q0 r0 zf dx a
+    revert this
+    cases h : runDivmod regs q0 r0 zf dx a 0#64 <;> simp [Outcome.frame, goDivmod]
+  · rw [divmod_asm_spec regs q0 r0 zf dx a b hb]
+    simp [goDivmod, hb]
+
+/-- link to the unbounded-integer model (`goDiv`/`goMod` of `Basic.lean`, used by `itol`): when the
+    mathematical quotient fits (everything but `MinInt / -1`), the 64-bit result is the truncated
+    quotient / remainder of the operands read as integers. -/
+theorem divmod_int_model (a b : BitVec 64) (hb : b ≠ 0#64) (hov : ¬(a = BitVec.intMin 64 ∧ b = BitVec.allOnes 64)) :
+    (a.sdiv b).toInt = goDiv a.toInt b.toInt ∧ (a.srem b).toInt = goMod a.toInt b.toInt := by
+  constructor
+  · unfold goDiv
+    rw [BitVec.toInt_sdiv_of_ne_or_ne]
+    by_cases h : a = BitVec.intMin 64
+    · right; intro hb1; exact hov ⟨h, by simpa using hb1⟩
+    · left; exact h
+  · unfold goMod
+    exact BitVec.toInt_srem a b
+
+example : (runDivmod (fun _ => 0#64) 0#64 0#64 false false (BitVec.ofInt 64 (-7)) (BitVec.ofInt 64 2)).frame
+    = some (BitVec.ofInt 64 (-3), BitVec.ofInt 64 (-1), BitVec.ofInt 64 (-7), BitVec.ofInt 64 2) := by decide
+
+/-! ## specialised float engines = default engine -/
+
+/-- On the iterator path the specialised `Add` *is* the default engine's `Add` (it defers to it). -/
+theorem floatAdd_iter_defers (s : St) (e : Eng) (a b : Dense) (o : Opts)
+    (h : (a.requiresIterator || b.requiresIterator) = true) :
+    engFloatAdd s e a b o = engArithVV s "add" numberTypes a b o := by
+  unfold engFloatAdd
+  simp only [h, if_true]
+
+/-- Contiguous path, safe and `UseUnsafe()` modes: for operands the default engine accepts (same
+    element type — the engine's —, same shape, same data order, equally long windows) the specialised
+    `Add` returns exactly the default engine's outcome: the same new state (every buffer), the same
+    returned tensor, the same errors. -/
+theorem floatAdd_eq_std (s : St) (e : Eng) (a b : Dense) (u : Bool)
+    (he : e ≠ .std) (hdt : a.dt = engDt e) (hdb : b.dt = a.dt)
+    (hsh : shapeEq a.shape b.shape = true) (hord : sameOrd a b = true)
+    (hia : a.requiresIterator = false) (hib : b.requiresIterator = false)
+    (hm : a.mask = none) (hlen : a.win.len = b.win.len) :
+    engFloatAdd s e a b { unsafe_ := u } = engArithVV s "add" numberTypes a b { unsafe_ := u } := by
+  have hnum : engDt e ∈ numberTypes := by
+    cases e <;> simp_all [engDt, numberTypes]
+  have hk : engDt e ∈ kernelTypes "add" := by
+    simpa [kernelTypes] using hnum
+  have hv : vecFn "add" (engDt e) = fun x y => Val.app2 "add" x y := by
+    simp [vecFn]
+  have heop : ∀ (s' : St) (w : Win), w.len = b.win.len →
+      eOp s' w b.win (fun x y => Val.app2 "add" x y) (vecFn "add" (engDt e)) = kVV s' w b.win (fun x y => Val.app2 "add" x y) := by
+    intro s' w hw
+    unfold eOp isSc
+    rw [hv, hw]
+    cases h1 : (b.win.len == 1) <;> simp
+  unfold engFloatAdd engArithVV handleFuncOptsF handleFuncOpts
+  simp [hia, hib, hdt, hdb, hsh, hord, hnum, hk]
+  cases u
+  · simp
+    cases hc : Dense.clone s a with
+    | error err => simp [bind, Except.bind]
+    | ok p =>
+      obtain ⟨s', c⟩ := p
+      have hcl := (clone_fresh' s s' a c hm hc).2.2.1
+      simp [bind, Except.bind, heop s' c.win (by rw [hcl, hlen])]
+  · simp [heop s a.win hlen]
+
+/-- `FMA(a, x, y)`, contiguous path: the specialised engines' fused kernel is the default engine's
+    `Mul(a, x, WithIncr(y))` whenever the default engine takes its plain `MulIncr` kernel (operands
+    accepted, `y` of the operands' shape and order, more than one element). -/
+theorem floatFMA_eq_std (s : St) (e : Eng) (a x y : Dense)
+    (he : e ≠ .std) (hdt : a.dt = engDt e) (hdx : x.dt = a.dt) (hdy : y.dt = a.dt)
+    (hsh : shapeEq a.shape x.shape = true) (hshy : shapeEq y.shape a.shape = true)
+    (hord : sameOrd a x = true) (hordy : sameOrd a y = true)
+    (hia : a.requiresIterator = false) (hix : x.requiresIterator = false) (hiy : y.requiresIterator = false)
+    (hleny : (y.win.len : Int) = totalSize a.shape)
+    (hna : a.win.len ≠ 1) (hnx : x.win.len ≠ 1) :
+    engFloatFMA s e a x y = engArithVV s "mul" numberTypes a x { incr := some y } := by
+  have hnum : engDt e ∈ numberTypes := by
+    cases e <;> simp_all [engDt, numberTypes]
+  have hk : engDt e ∈ kernelTypes "mul" := by
+    simpa [kernelTypes] using hnum
+  have hv : vecFn "mul" (engDt e) = fun p q => Val.app2 "mul" p q := by
+    simp [vecFn]
+  have hoxy : sameOrd x y = true := by
+    unfold sameOrd at *; simp_all
+  unfold engFloatFMA engArithVV handleFuncOpts eOpIncr isSc
+  simp [hia, hix, hiy, hdt, hdx, hdy, hsh, hshy, hord, hordy, hoxy, hnum, hk, hleny, hna, hnx, hv]
+
+/-! ## non-vacuity and the recorded exception -/
+
+/-- two contiguous f64 vectors of length 2 over buffers 0 and 1 -/
+def wA : Dense := { ap := { shape := [2], strides := [1], fin := true }, win := ⟨0, 0, 2, 2⟩, dt := "f64", eng := .f64 }
+def wB : Dense := { ap := { shape := [2], strides := [1], fin := true }, win := ⟨1, 0, 2, 2⟩, dt := "f64", eng := .f64 }
+/-- a contiguous f64 vector of length 3 over buffer 1 (different shape) -/
+def wC : Dense := { ap := { shape := [3], strides := [1], fin := true }, win := ⟨1, 0, 3, 3⟩, dt := "f64", eng := .f64 }
+def wSt : St := { heap := #[#[.src 0 0, .src 0 1], #[.src 1 0, .src 1 1, .src 1 2]] }
+
+/-- the hypotheses of `floatAdd_eq_std` / `floatFMA_eq_std` are satisfiable -/
+example : Eng.f64 ≠ .std ∧ wA.dt = engDt .f64 ∧ wB.dt = wA.dt ∧ shapeEq wA.shape wB.shape = true ∧ sameOrd wA wB = true ∧
+    wA.requiresIterator = false ∧ wB.requiresIterator = false ∧ wA.mask = none ∧ wA.win.len = wB.win.len := by decide
+
+/-- … and on that instance the call does succeed (the equality is not between two errors) -/
+example : (match engFloatAdd wSt .f64 wA wB { unsafe_ := true } with | .ok _ => true | .error _ => false) = true := by decide
+
+/-- F37, the recorded exception to the equivalence: operands of *different shapes* (lengths 2 and 3) are
+    refused by the default engine and combined cell by cell by the specialised engine. -/
+theorem floatAdd_skips_shape_check :
+    (match engFloatAdd wSt .f64 wA wC { unsafe_ := true } with | .ok _ => true | .error _ => false) = true ∧
+    (match engArithVV wSt "add" numberTypes wA wC { unsafe_ := true } with | .ok _ => true | .error _ => false) = false := by
+  decide
+
 end TM.C20
